@@ -57,6 +57,9 @@ func c14Size(r *fw.Rand, mtu int) int {
 	if s > 60000 {
 		s = 60000
 	}
+	if mtu >= 1000 && r.Chance(1, 30) {
+		s = r.Pick(65533, 65534, 65535, 65536, 65537, 70000, 131073) // units beyond 64 KiB (16-bit size fields must not be involved in fragmentation)
+	}
 	return s
 }
 
